@@ -22,6 +22,23 @@ def sh(cmd, cwd=None, timeout=3600):
     return r.returncode, (r.stdout + r.stderr)
 
 
+def run_checks(props, tier, name, env):
+    results = {}
+    for p in props:
+        t0 = time.time()
+        rc, out = sh('%s./check %s %s' % (env, p, tier), cwd=ROOT, timeout=7200)
+        viol = [l for l in out.splitlines() if l.startswith('VIOLATION')]
+        msgs = [l.strip() for l in out.splitlines() if l.startswith('  ')][:3]
+        results[p] = dict(exit=rc, violations=len(viol), wall_s=round(time.time() - t0, 1), first_messages=[x[:400] for x in msgs], tier=tier)
+        print('CHECK %s %s on %s: exit=%d violations=%d (%.0fs) %s' % (p, tier, name, rc, len(viol), time.time() - t0, (msgs[0][:300] if msgs else '')))
+        # replays written while the tree was mutated are not part of the regression tier
+        for l in viol:
+            m = re.search(r'replay=(\S+)', l)
+            if m and os.path.exists(m.group(1)) and not os.path.basename(m.group(1)).startswith('F'):
+                os.remove(m.group(1))
+    return results
+
+
 def main():
     mdir, name, props = sys.argv[1], sys.argv[2], sys.argv[3:]
     tier = os.environ.get('SEED_TIER', 'quick')
@@ -29,6 +46,9 @@ def main():
     demo = os.path.join(mdir, 'demo.cc')
     meta = json.load(open(os.path.join(mdir, 'meta.json'))) if os.path.exists(os.path.join(mdir, 'meta.json')) else {}
     ran = []
+    results = {}
+    inplace_done = False
+    confirmed = False
     sh('git -C /repo worktree remove --force %s' % WT)
     rc, out = sh('git -C /repo worktree add --detach %s HEAD' % WT)
     assert rc == 0, out
@@ -36,7 +56,7 @@ def main():
         # demo compile command from its header comment
         src = open(demo).read()
         m = re.search(r'((?:g\+\+|clang\+\+)[^\n]*)', src)
-        cc = m.group(1).strip().rstrip('*/').strip() if m else 'g++ -std=c++14 -Iinclude demo.cc -o demo'
+        cc = m.group(1).split('&&')[0].split(';')[0].strip().rstrip('*/').strip() if m else 'g++ -std=c++14 -Iinclude demo.cc -o demo'
         cc = re.sub(r'\S*demo\.cc', demo, cc)
         cc = re.sub(r'-o\s+\S+', '-o %s/demo_bin' % WT, cc)
         if '-o ' not in cc:
@@ -61,27 +81,20 @@ def main():
         ran.append('changed: ./demo -> exit %d' % rc1)
         confirmed = tests_ok and rc0 == 0 and rc1 != 0
         print('CONFIRM %s: tests_pass=%s demo_unchanged_exit=%d demo_changed_exit=%d => %s' % (name, tests_ok, rc0, rc1, 'confirmed' if confirmed else 'NOT CONFIRMED'))
+        # SEED_INPLACE=0: run the checks against the scratch worktree (VERIF_REPO) instead of applying
+        # the change to /repo (used while a background run is reading /repo)
+        if confirmed and os.environ.get('SEED_INPLACE', '1') == '0':
+            results = run_checks(props, tier, name, 'VERIF_REPO=%s ' % WT)
+            inplace_done = True
     finally:
         sh('git -C /repo worktree remove --force %s' % WT)
-    results = {}
-    if confirmed:
+    if confirmed and not inplace_done:
         rc, out = sh('git -C /repo status --porcelain')
         assert out.strip() == '', '/repo is not clean'
         rc, out = sh('git -C /repo apply %s' % patch)
         assert rc == 0, out
         try:
-            for p in props:
-                t0 = time.time()
-                rc, out = sh('./check %s %s' % (p, tier), cwd=ROOT, timeout=7200)
-                viol = [l for l in out.splitlines() if l.startswith('VIOLATION')]
-                msgs = [l.strip() for l in out.splitlines() if l.startswith('  ')][:3]
-                results[p] = dict(exit=rc, violations=len(viol), wall_s=round(time.time() - t0, 1), first_messages=[x[:400] for x in msgs], tier=tier)
-                print('CHECK %s %s on %s: exit=%d violations=%d (%.0fs) %s' % (p, tier, name, rc, len(viol), time.time() - t0, (msgs[0][:300] if msgs else '')))
-                # replays written while the tree was mutated are not part of the regression tier
-                for l in viol:
-                    m = re.search(r'replay=(\S+)', l)
-                    if m and os.path.exists(m.group(1)) and not os.path.basename(m.group(1)).startswith('F'):
-                        os.remove(m.group(1))
+            results = run_checks(props, tier, name, '')
         finally:
             sh('git -C /repo checkout -- .')
         rc, out = sh('git -C /repo status --porcelain')
